@@ -196,10 +196,32 @@ def gen_path(rnd, sd):
     return {'p0': p0, 'tol': tol, 'elements': els, 'simple': simple, 'scale_width': True, 'calls': calls, 'rep': None, 'props': [], 'sharp': sharp}
 
 
+def gen_taper_kink(rnd):
+    """three parallel elements, a tapered Bezier section continued by a tapered turn with other taper rates: the family in which the
+    thorough tier (seed 31, case Q47063) found the last short outline edge of the curve and the first edge of the turn almost parallel
+    without being collinear on the inner side of the joint - their intersection lies far behind the joint (fixed in gdstk, kept as a
+    targeted workload)"""
+    def j(v):
+        return v * rnd.uniform(0.8, 1.2)
+    w = [j(0.08), j(0.06), j(0.08)]
+    o = [-0.14, 0.0, 0.12]
+    els = [{'width': w[k], 'offset': o[k], 'tag': (k, 0), 'join': rnd.choice([3, 3, 0, 2]), 'end': 1 if k < 2 else 0, 'ext': (0.0, 0.0), 'bend': 0, 'bend_radius': 0.0}
+           for k in range(3)]
+    w1 = [w[0] * j(1.4), w[1] * j(0.6), w[2] * j(0.4)]
+    w2 = [w1[0] * j(1.0), w1[1] * j(2.3), w1[2] * j(1.5)]
+    sgn = rnd.choice([-1, 1])       # mirror image of the family as well
+    calls = [('bezier', [(sgn * j(0.15), j(-0.3)), (sgn * j(-0.15), j(-0.7)), (sgn * (j(0.02) - 0.02), j(-1.0))], {'rel': True, 'w': w1}),
+             ('turn', (j(1.08), rnd.choice([0.5, -0.5])), {'w': w2})]
+    return {'p0': (0.25, 0.27), 'tol': 0.001, 'elements': els, 'simple': False, 'scale_width': True, 'calls': calls, 'rep': None, 'props': [],
+            'sharp': False, 'taper_kink': True}
+
+
 def make_case(i):
     sd = vfw.seed() * 1000003 + 70000 + i
     rnd = random.Random(sd)
     fp = gen_path(rnd, sd)
+    if random.Random(sd + 9).random() < 0.06:
+        fp = gen_taper_kink(random.Random(sd + 10))
     c = Case('Q%d' % i, timeout=60)
     if fp['simple']:
         c.op('lib', script.hx('L'), fl(1e-6), fl(1e-9))
@@ -498,6 +520,16 @@ def judge(chk, c, evs):
                         chk.violation('C07/outline/excess', 'element %d (half width %g, join %d, end %d): point (%.6g,%.6g) is %.4g from the (cap-extended) centre line, '
                                       'beyond the reach %.4g of the join/end style, but inside the outline' % (ei, max(hw), join, end_t, px, py, dext, reach), rp)
                         return
+        # the outline's own vertices are its extreme points: none may lie beyond the reach either
+        # (not for miter joins: the tip of a miter is as far out as the turn of the two outline edges makes it, and with tapers those turn
+        # slightly more or less than the centre line - the sampled test above leaves the tip alone, a vertex test would sit right on it)
+        for (vx, vy) in (poly if join != 1 else []):
+            dext, _kv, _sv = dist_centre(vx, vy, True)
+            if dext > reach * 1.02 + 3 * tol + 1e-9:
+                chk.violation('C07/outline/excess', 'element %d (half width %g, join %d, end %d): outline vertex (%.6g,%.6g) is %.4g from the (cap-extended) centre line, '
+                              'beyond the reach %.4g of the join/end style' % (ei, max(hw), join, end_t, vx, vy, dext, reach), rp)
+                return
+        chk.cov('outline_vertices_checked', len(poly))
         # outer side of every real corner: the points just inside the two offset corners (0.85 of the half width from the vertex, at right
         # angles to either adjacent segment) are closer than half the width to the centre line whatever the join type
         if not spec['bend']:
@@ -573,6 +605,8 @@ def judge(chk, c, evs):
     if fp['simple'] and not path_records(chk, c, evs, fp, centres, tol, rp):
         return
     chk.cov('cases_judged')
+    if fp.get('taper_kink'):
+        chk.cov('taper_kink_paths')
     if nontrivial:
         chk.fp(c.id)
 
